@@ -441,11 +441,41 @@ class Registry:
         }
         self.trusted = []  # (name, text) trusted facts / stubs, listed in evidence
         self._clause_cache = {}
-        for h in (
+        for h in self.HOOKS:
+            object.__setattr__(self, h, None)
+
+    HOOKS = tuple(
+        (
             "opaque_attr opaque_eq opaque_call getattr_fallback setattr_fallback contains_fallback compare_fallback "
             "binop_fallback getitem_fallback setitem_fallback iterate_fallback len_fallback isinstance_hook yield_hook"
-        ).split():
-            setattr(self, h, None)
+        ).split()
+    )
+
+    def __setattr__(self, name, value):
+        """Hooks set by several contract modules are chained: the newest is asked first and an older one is
+        consulted when it declines (raises PyvcError / a '... not modelled' error, or, for isinstance_hook,
+        returns None)."""
+        if name in self.HOOKS and callable(value):
+            prev = getattr(self, name, None)
+            if prev is not None and prev is not value and not getattr(value, "_chained", False):
+                new = value
+
+                def chained(*a, _new=new, _prev=prev, _name=name, **k):
+                    try:
+                        r = _new(*a, **k)
+                    except PyvcError:
+                        return _prev(*a, **k)
+                    except Exception as e:  # a module's own "not modelled" error
+                        if "not modelled" in str(e) and type(e) is Exception:
+                            return _prev(*a, **k)
+                        raise
+                    if r is None and _name == "isinstance_hook":
+                        return _prev(*a, **k)
+                    return r
+
+                chained._chained = True
+                value = chained
+        object.__setattr__(self, name, value)
 
     def add(self, contract, key=None):
         """Register a contract.  `key` distinguishes several contracts on the same function (one per
